@@ -90,6 +90,25 @@ def run(tier, seed):
     node = svcmon.nodes_of(snap0).get((1, 1), {'trials': []})
     ctx = {'ids': [t['id'] for t in node['trials']], 'active': [t['id'] for t in node['trials'] if t['state'] == 'ACTIVE']}
     rpcs = [make_rpc(r, ka, ctx), make_rpc(r, kb, ctx)]
+    if pi % 4 == 0:
+      # two studies of one owner: the second call goes to a sibling study (same worker id when both are suggestions)
+      prefix = prefix + [('CreateStudy', 1, 2, False, 'SS_ACTIVE', [(1, True)])]
+      if r.random() < 0.5:
+        prefix.append(('SuggestTrials', 1, 2, 1, 1, ('deliver', [55], [], [])))
+      both = (pi // 4) % 2 == 0
+      kb2 = 'SuggestTrials' if both else r.choice(['SuggestTrials', 'CreateTrial', 'SetStudyState', 'DeleteStudy'])
+      ka2 = 'SuggestTrials' if both else r.choice(['SuggestTrials', 'CreateTrial'])
+      backend = 'sqlmem' if (pi // 8) % 2 == 0 else 'ram'
+      a, b = make_rpc(r, ka2, ctx), make_rpc(r, kb2, ctx)
+      b = (b[0], 1, 2) + tuple(b[3:])
+      if a[0] == b[0] == 'SuggestTrials':
+        b = b[:3] + (a[3],) + tuple(b[4:])
+        a = a[:5] + (('deliver', a[5][1], a[5][2], []),)
+        b = b[:5] + (('deliver', b[5][1], b[5][2], []),)
+      elif b[0] == 'SuggestTrials':
+        b = b[:5] + (('deliver', b[5][1], b[5][2], []),)
+      rpcs = [a, b]
+      rep.count('cross_study_pair')
     if tier == 'thorough' and r.random() < 0.15:
       rpcs.append(make_rpc(r, r.choice(KINDS), ctx))
     n = len(rpcs)
@@ -117,7 +136,7 @@ def run(tier, seed):
       unfinished = [x for k_, nn in svcmon.nodes_of(res['snapshot']).items() for x in nn['ops'] if not x['done']]
       if not ok or unfinished:
         fid = classify(rpcs, res, serials) if not unfinished else None
-        what = ('interleaving of %s and %s is not equivalent to any serial order' % (ka, kb)) if not ok else 'an operation is left unfinished solely because of the interleaving'
+        what = ('interleaving of %s and %s is not equivalent to any serial order' % (rpcs[0][0] + ' on study %d' % rpcs[0][2] if rpcs[0][0] != 'CheckEarlyStop' else rpcs[0][0], rpcs[1][0] + ' on study %d' % rpcs[1][2] if rpcs[1][0] != 'CheckEarlyStop' else rpcs[1][0])) if not ok else 'an operation is left unfinished solely because of the interleaving'
         if fid and fid in known:
           rep.known(fid, known[fid]['what'])
         else:
